@@ -44,6 +44,7 @@ func (s *State) NewObj(label string, elem types.Type, n int) *Obj {
 		}
 	}
 	s.heap[o.id] = &ObjData{cells: cs, owner: s}
+	s.objs[o.id] = o
 	return o
 }
 
@@ -92,6 +93,10 @@ func MergeStates(sel *Term, a, b *State) *State {
 	for _, id := range ids {
 		da := a.heap[id]
 		db, ok := b.heap[id]
+		if !ok && a.objs[id] != nil && a.objs[id].glob {
+			o := a.objs[id]
+			db, ok = &ObjData{cells: flatten(o.elem, zeroValue(o.elem), nil)}, true
+		}
 		if !ok || da == db {
 			m.heap[id] = da
 			continue
@@ -109,7 +114,16 @@ func MergeStates(sel *Term, a, b *State) *State {
 	}
 	for id, db := range b.heap {
 		if _, ok := a.heap[id]; !ok {
-			m.heap[id] = db
+			if o := a.objs[id]; o != nil && o.glob {
+				z := flatten(o.elem, zeroValue(o.elem), nil)
+				nd := &ObjData{cells: make([]Value, len(z)), owner: m}
+				for i := range z {
+					nd.cells[i] = IteV(sel, z[i], db.cells[i])
+				}
+				m.heap[id] = nd
+			} else {
+				m.heap[id] = db
+			}
 		}
 	}
 	return m
